@@ -80,8 +80,10 @@ class NativeClient:
 
 
 def native_client():
-    if _W["native"] is None:
+    # one server per process: a forked worker must not share its parent's pipe
+    if _W["native"] is None or _W.get("native_pid") != os.getpid():
         _W["native"] = NativeClient()
+        _W["native_pid"] = os.getpid()
     return _W["native"]
 
 
@@ -275,6 +277,9 @@ class SymBackend(BackendBase):
         self.objects[name] = u
         self.holes.append(("uf", name, u, [list(d) for d in domains], ft))
         return u
+
+    def try_public_assoc(self, verts, links):
+        """native side only: reach the installed pre-state through the public API"""
 
     # ---- private state
     def set_field(self, obj, field, value):
@@ -546,7 +551,7 @@ class SymBackend(BackendBase):
             bad = [n for n, ok in res.get("obligations", []) if not ok]
             if bad:
                 return {"obligation": name, "scenario": {"check": self.check_id, "params": self.params, "holes": holes},
-                        "reproduced": True, "native_failed": bad}
+                        "reproduced": True, "native_failed": bad, "meta": res.get("meta", {})}
             extra.append(self._block(model))
         return {"obligation": name, "reproduced": False, "tried": tried, "native": last,
                 "scenario": {"check": self.check_id, "params": self.params, "holes": self.fill(model) if model is not None else None}}
